@@ -41,7 +41,7 @@ func c14R10(h H) {
 	funcs := h.p.PkgFuncs(pxPkg)
 	// copiers and copied fields
 	copied := map[*types.Var]bool{}
-	copiers := map[*ssa.Function]bool{}
+	copiers := map[*ssa.Function]map[int]bool{}
 	for _, g := range funcs {
 		allInstrs(g, func(in ssa.Instruction) {
 			st, ok := in.(*ssa.Store)
@@ -64,7 +64,8 @@ func c14R10(h H) {
 			if !ok {
 				return
 			}
-			if paramBehind(src.X) == nil {
+			sp := paramBehind(src.X)
+			if sp == nil {
 				return
 			}
 			sv := fieldOf(src)
@@ -72,7 +73,14 @@ func c14R10(h H) {
 				return
 			}
 			copied[sv] = true
-			copiers[g] = true
+			for i, q := range g.Params {
+				if q == sp {
+					if copiers[g] == nil {
+						copiers[g] = map[int]bool{}
+					}
+					copiers[g][i] = true
+				}
+			}
 		})
 	}
 	if len(copiers) == 0 {
@@ -107,6 +115,64 @@ func c14R10(h H) {
 		r.Unresolve("R10", "no function stores into the copied upstream fields through a parameter")
 		return
 	}
+	// both sets are closed under "hands its own parameter on": a function that passes a parameter to a copier
+	// (setter) in the upstream's position is one itself; a call through a function value counts as a call of every
+	// function of the set with that signature (the table-of-handlers shape)
+	targets := func(set map[*ssa.Function]map[int]bool, c *ssa.CallCommon) map[int]bool {
+		if c.IsInvoke() {
+			return nil
+		}
+		if sc := c.StaticCallee(); sc != nil {
+			return set[sc]
+		}
+		var out map[int]bool
+		for fn, idx := range set {
+			if types.Identical(fn.Signature, c.Value.Type().Underlying()) {
+				if out == nil {
+					out = map[int]bool{}
+				}
+				for i := range idx {
+					// a method's receiver is parameter 0 of the function but not of its signature
+					if fn.Signature.Recv() == nil {
+						out[i] = true
+					}
+				}
+			}
+		}
+		return out
+	}
+	closeSet := func(set map[*ssa.Function]map[int]bool) {
+		for changed := true; changed; {
+			changed = false
+			for _, g := range funcs {
+				allInstrs(g, func(in ssa.Instruction) {
+					c := callOf(in)
+					if c == nil {
+						return
+					}
+					idx := targets(set, c)
+					for i, a := range c.Args {
+						if !idx[i] {
+							continue
+						}
+						if p := paramBehind(a); p != nil {
+							for j, q := range g.Params {
+								if q == p && !set[g][j] {
+									if set[g] == nil {
+										set[g] = map[int]bool{}
+									}
+									set[g][j] = true
+									changed = true
+								}
+							}
+						}
+					}
+				})
+			}
+		}
+	}
+	closeSet(copiers)
+	closeSet(setters)
 	type ob struct {
 		key string
 		in  ssa.Instruction
@@ -118,10 +184,20 @@ func c14R10(h H) {
 		k := 0
 		allInstrs(f, func(in ssa.Instruction) {
 			c, ok := in.(*ssa.Call)
-			if !ok || !copiers[c.Common().StaticCallee()] || len(c.Common().Args) == 0 {
+			if !ok {
 				return
 			}
-			u := c.Common().Args[0]
+			var u ssa.Value
+			cidx := targets(copiers, c.Common())
+			for i, a := range c.Common().Args {
+				if cidx[i] && u == nil {
+					u = a
+				}
+			}
+			if u == nil || paramBehind(u) != nil {
+				// handing on one's own parameter: the obligation is the caller's (closure of the sets above)
+				return
+			}
 			k++
 			o := ob{key: sprintf("%s/make-host#%d", shortFunc(f), k), in: in}
 			// the upstream is identified by its allocation, or — when the local variable lives in a cell because a
@@ -153,7 +229,7 @@ func c14R10(h H) {
 				if !ok {
 					return false
 				}
-				idx := setters[sc.Common().StaticCallee()]
+				idx := targets(setters, sc.Common())
 				for i, a := range sc.Common().Args {
 					if idx[i] && canon(a) == u {
 						return true
